@@ -15,7 +15,12 @@ import (
 	"crypto/elliptic"
 	"crypto/rand"
 	"crypto/sha256"
+	"crypto/x509"
+	"crypto/x509/pkix"
 	"encoding/hex"
+	"encoding/json"
+	"math/big"
+	"net"
 	"errors"
 	"flag"
 	"fmt"
@@ -32,6 +37,7 @@ import (
 	"time"
 
 	"filippo.io/mldsa"
+	"filippo.io/sunlight"
 	"filippo.io/sunlight/internal/ctlog"
 )
 
@@ -348,7 +354,19 @@ func (d *driver) submit(li *logInst, e *ctlog.PendingLogEntry, low bool) {
 		wt.dup = true
 	}
 	go func() {
-		le, err := f(context.Background())
+		var le *sunlight.LogEntry
+		var err error
+		func() {
+			defer func() {
+				if r := recover(); r != nil {
+					err = fmt.Errorf("PANIC: %v", r)
+					w.mu.Lock()
+					w.mon.fail("C17 a submitter's wait function panicked instead of returning an outcome (waiter %d, source %s): %v", wid, src, r)
+					w.mu.Unlock()
+				}
+			}()
+			le, err = f(context.Background())
+		}()
 		w.mu.Lock()
 		defer w.mu.Unlock()
 		wt.done = true
@@ -414,8 +432,8 @@ func (d *driver) submit(li *logInst, e *ctlog.PendingLogEntry, low bool) {
 		d.nextWid-- // the model never sees this submission: keep the waiter numbering aligned
 	}
 	if !li.in.dead {
-		w.logf(nil, "ev|submit|%d|%s|%d|%s|%s|%s|%s|%s|%s|-", li.in.id, b2i(low), victim, fl, hx(e.Certificate), b2i(e.IsPrecert),
-			hx(e.IssuerKeyHash[:]), il, hx(e.PreCertificate))
+		w.logf(nil, "ev|submit|%d|%s|%d|%s|%s|%s|%s|%s|%s|%s", li.in.id, b2i(low), victim, fl, hx(e.Certificate), b2i(e.IsPrecert),
+			hx(e.IssuerKeyHash[:]), il, hx(e.PreCertificate), hx(namesTemplate(e)))
 		w.out.Write(buf.Bytes())
 		switch src {
 		case "pool":
@@ -507,18 +525,64 @@ func (d *driver) checkDups() {
 	}
 }
 
+// realCert makes a parseable self-signed certificate with a unique subject, so that the entry
+// contributes a line to the names tile
+func (d *driver) realCert() []byte {
+	tmpl := &x509.Certificate{
+		SerialNumber: big.NewInt(int64(d.nEntry)*1000 + int64(d.r.Intn(1000))),
+		Subject:      pkix.Name{CommonName: fmt.Sprintf("host%d.example", d.nEntry), Organization: []string{"Verif"}},
+		DNSNames:     []string{fmt.Sprintf("host%d.example", d.nEntry), "www.example.org"},
+		NotBefore:    time.Unix(1700000000, 0), NotAfter: time.Unix(1800000000, 0),
+	}
+	if d.r.Intn(3) == 0 {
+		tmpl.IPAddresses = []net.IP{net.IPv4(10, 0, byte(d.r.Intn(256)), byte(d.r.Intn(256)))}
+	}
+	der, err := x509.CreateCertificate(rand.Reader, tmpl, tmpl, d.keys[0].Public(), d.keys[0])
+	if err != nil {
+		panic(err)
+	}
+	return der
+}
+
+const tsSentinel = 7777777777777777
+
+// namesTemplate returns the names-tile line of the entry with byte 0xff in place of the decimal
+// timestamp (empty when the certificate does not parse), via the real TrimmedEntry + encoding/json
+func namesTemplate(e *ctlog.PendingLogEntry) []byte {
+	le := &sunlight.LogEntry{Certificate: e.Certificate, IsPrecert: e.IsPrecert, PreCertificate: e.PreCertificate, Timestamp: tsSentinel}
+	tl, err := le.TrimmedEntry()
+	if err != nil {
+		return nil
+	}
+	line, err := json.Marshal(tl)
+	if err != nil {
+		return nil
+	}
+	line = append(line, '\n')
+	return bytes.Replace(line, []byte(strconv.Itoa(tsSentinel)), []byte{0xff}, 1)
+}
+
 func (d *driver) newEntry() *ctlog.PendingLogEntry {
 	d.nEntry++
 	e := &ctlog.PendingLogEntry{}
+	real := d.r.Intn(2) == 0
 	n := 4 + d.r.Intn(30)
 	e.Certificate = make([]byte, n)
 	d.r.Read(e.Certificate)
 	copy(e.Certificate, fmt.Sprintf("%04d", d.nEntry))
+	if real {
+		e.Certificate = d.realCert()
+	}
 	if d.r.Intn(2) == 0 {
 		e.IsPrecert = true
 		d.r.Read(e.IssuerKeyHash[:])
 		e.PreCertificate = make([]byte, 3+d.r.Intn(20))
 		d.r.Read(e.PreCertificate)
+		if real {
+			// the names line of a precertificate entry comes from PreCertificate; Certificate is the TBS
+			e.PreCertificate = e.Certificate
+			e.Certificate = append([]byte(fmt.Sprintf("tbs%04d", d.nEntry)), e.PreCertificate[:20]...)
+		}
 	}
 	for k := d.r.Intn(3); k > 0; k-- {
 		e.Issuers = append(e.Issuers, d.issuers[d.r.Intn(len(d.issuers))])
